@@ -17,13 +17,15 @@ rows=["| property | obligation key | what fails |","|---|---|---|"]
 for f in k['open']:
     rows.append(f"| {f['property']} | `{f['key']}` | {f['what']} |")
 openf="\n".join(rows)
+if k.get('audit_findings_outside_the_checks'):
+    openf+="\n\nFindings of the audit round that no obligation expresses (documented, not repaired; demos and suggested patches in `findings/open/`):\n\n| property | where | what fails, and why it was not repaired |\n|---|---|---|\n"+"\n".join(f"| {f['property']} | `{f['where']}` | {f['what']} |" for f in k['audit_findings_outside_the_checks'])
 rows=["| seed | property | change (made by an independent sub-agent that saw only the property text) | caught by |","|---|---|---|---|"]
 n=0; caught=0
 for m in sorted(glob.glob(V+'/seeded/C*/meta.json')):
     d=json.load(open(m)); n+=1
     det=d.get('detected_by')
     if det: caught+=1
-    if det is None: c='(patch no longer applies to the current tree)'
+    if det is None: c='('+d.get('detect_note','patch no longer applies to the current tree')+')'
     elif not det: c='**not detected** — '+d.get('why_not_detected','')
     else: c='; '.join(f"{p}: `{ks[0]}`"+(f" (+{len(ks)-1})" if len(ks)>1 else '') for p,ks in det.items())
     note=d.get('rule_history','')
